@@ -101,7 +101,16 @@ theorem exec_call_def (Γ : List Ptr) (body : Stmt) (nslots : Nat) (sargs : List
       (evalPtrs Γ σ pargs).bind fun ps =>
         callRet σ (exec ps body f { env := vs ++ List.replicate (nslots - vs.length) 0, mem := σ.mem }) := rfl
 
-theorem exec_mono : ∀ (s : Stmt) (Γ : List Ptr), Mono (exec Γ s)
+theorem execK_call_def (K : ExtSem) (Γ : List Ptr) (body : Stmt) (nslots : Nat) (sargs : List Expr)
+    (pargs : List (PBase × Expr)) (f : Nat) (σ : State) :
+    execK K Γ (.call body nslots sargs pargs) f σ = (evalList Γ σ sargs).bind fun vs =>
+      (evalPtrs Γ σ pargs).bind fun ps =>
+        callRet σ (execK K ps body f { env := vs ++ List.replicate (nslots - vs.length) 0, mem := σ.mem }) := rfl
+theorem execK_ite_def (K : ExtSem) (Γ : List Ptr) (c : Expr) (t e : Stmt) (f : Nat) (σ : State) :
+    execK K Γ (.ite c t e) f σ = (evalB Γ c σ).bind fun b => if b then execK K Γ t f σ else execK K Γ e f σ := rfl
+
+/-- fuel monotonicity for any semantics of the opaque calls (they consume no fuel) -/
+theorem execK_mono (K : ExtSem) : ∀ (s : Stmt) (Γ : List Ptr), Mono (execK K Γ s)
   | .skip, _ => mono_const _
   | .assign _ _, _ => mono_const _
   | .store _ _ _, _ => mono_const _
@@ -111,27 +120,31 @@ theorem exec_mono : ∀ (s : Stmt) (Γ : List Ptr), Mono (exec Γ s)
   | .vstore _ _ _ _, _ => mono_const _
   | .ret, _ => mono_const _
   | .cont, _ => mono_const _
-  | .seq a b, Γ => mono_seq _ _ (exec_mono a Γ) (exec_mono b Γ)
+  | .pstore _ _ _, _ => mono_const _
+  | .pstore32 _ _ _, _ => mono_const _
+  | .aset _ _ _ _, _ => mono_const _
+  | .extcall _ _ _, _ => mono_const _
+  | .seq a b, Γ => mono_seq _ _ (execK_mono K a Γ) (execK_mono K b Γ)
   | .ite c t e, Γ => by
     intro f f' σ hle hne
-    simp only [exec_ite] at hne ⊢
+    simp only [execK_ite_def] at hne ⊢
     cases hc : evalB Γ c σ with
     | err e => rfl
     | ok b =>
       rw [hc] at hne
       cases b with
-      | true => exact exec_mono t Γ f f' σ hle hne
-      | false => exact exec_mono e Γ f f' σ hle hne
-  | .while c b, Γ => loopN_mono _ _ (exec_mono b Γ)
+      | true => exact execK_mono K t Γ f f' σ hle hne
+      | false => exact execK_mono K e Γ f f' σ hle hne
+  | .while c b, Γ => loopN_mono _ _ (execK_mono K b Γ)
   | .for i c inc b, Γ =>
-    mono_seq _ (fun f σ1 => loopN (evalB Γ c) (fun f σ => thenStep (exec Γ b f σ) fun σ' => exec Γ inc f σ') f σ1)
-      (exec_mono i Γ) (loopN_mono _ _ (mono_thenStep _ _ (exec_mono b Γ) (exec_mono inc Γ)))
+    mono_seq _ (fun f σ1 => loopN (evalB Γ c) (fun f σ => thenStep (execK K Γ b f σ) fun σ' => execK K Γ inc f σ') f σ1)
+      (execK_mono K i Γ) (loopN_mono _ _ (mono_thenStep _ _ (execK_mono K b Γ) (execK_mono K inc Γ)))
   | .doWhile b c, Γ =>
-    mono_thenStep _ (fun f σ' => loopN (evalB Γ c) (fun f σ => exec Γ b f σ) f σ')
-      (exec_mono b Γ) (loopN_mono _ _ (exec_mono b Γ))
+    mono_thenStep _ (fun f σ' => loopN (evalB Γ c) (fun f σ => execK K Γ b f σ) f σ')
+      (execK_mono K b Γ) (loopN_mono _ _ (execK_mono K b Γ))
   | .call body nslots sargs pargs, Γ => by
     intro f f' σ hle hne
-    simp only [exec_call_def] at hne ⊢
+    simp only [execK_call_def] at hne ⊢
     cases hv : evalList Γ σ sargs with
     | err e => rfl
     | ok vs =>
@@ -142,35 +155,51 @@ theorem exec_mono : ∀ (s : Stmt) (Γ : List Ptr), Mono (exec Γ s)
       | ok ps =>
         rw [hp] at hne
         simp only [R.bind_ok] at hne ⊢
-        have hb : exec ps body f { env := vs ++ List.replicate (nslots - vs.length) 0, mem := σ.mem } ≠ .err .fuel := by
+        have hb : execK K ps body f { env := vs ++ List.replicate (nslots - vs.length) 0, mem := σ.mem } ≠ .err .fuel := by
           intro h'; rw [h'] at hne; exact hne rfl
-        rw [exec_mono body ps f f' _ hle hb]
+        rw [execK_mono K body ps f f' _ hle hb]
+
+theorem exec_mono (s : Stmt) (Γ : List Ptr) : Mono (exec Γ s) := execK_mono ExtSem.none s Γ
+
+theorem runK_mono (K : ExtSem) (fn : Fn) (args : List Int) (Γ : List Ptr) (m : Mem) (f f' : Nat) (hle : f ≤ f')
+    (hne : runK K f fn args Γ m ≠ .err .fuel) : runK K f' fn args Γ m = runK K f fn args Γ m := by
+  unfold runK at hne ⊢
+  have hex : execK K Γ fn.body f ⟨args ++ List.replicate (fn.nslots - args.length) 0, m⟩ ≠ .err .fuel := by
+    intro h'; rw [h'] at hne; exact hne rfl
+  rw [execK_mono K fn.body Γ f f' _ hle hex]
+
+theorem runK_ok_or_fuel (K : ExtSem) (fn : Fn) (args : List Int) (Γ : List Ptr) (m m' : Mem) (F : Nat)
+    (h : ∀ fuel, F ≤ fuel → runK K fuel fn args Γ m = .ok m') :
+    ∀ fuel, runK K fuel fn args Γ m = .ok m' ∨ runK K fuel fn args Γ m = .err .fuel := by
+  intro fuel
+  by_cases hf : runK K fuel fn args Γ m = .err .fuel
+  · exact Or.inr hf
+  · left
+    have := runK_mono K fn args Γ m fuel (max fuel F) (Nat.le_max_left _ _) hf
+    rw [← this]
+    exact h _ (Nat.le_max_right _ _)
+
+theorem runK_no_other_error (K : ExtSem) (fn : Fn) (args : List Int) (Γ : List Ptr) (m m' : Mem) (F : Nat)
+    (h : ∀ fuel, F ≤ fuel → runK K fuel fn args Γ m = .ok m') :
+    ∀ fuel e, e ≠ .fuel → runK K fuel fn args Γ m ≠ .err e := by
+  intro fuel e he
+  rcases runK_ok_or_fuel K fn args Γ m m' F h fuel with h1 | h1 <;> rw [h1] <;> intro h2 <;> cases h2
+  exact he rfl
 
 theorem run_mono (fn : Fn) (args : List Int) (Γ : List Ptr) (m : Mem) (f f' : Nat) (hle : f ≤ f')
-    (hne : run f fn args Γ m ≠ .err .fuel) : run f' fn args Γ m = run f fn args Γ m := by
-  unfold run at hne ⊢
-  have hex : exec Γ fn.body f ⟨args ++ List.replicate (fn.nslots - args.length) 0, m⟩ ≠ .err .fuel := by
-    intro h'; rw [h'] at hne; exact hne rfl
-  rw [exec_mono fn.body Γ f f' _ hle hex]
+    (hne : run f fn args Γ m ≠ .err .fuel) : run f' fn args Γ m = run f fn args Γ m :=
+  runK_mono ExtSem.none fn args Γ m f f' hle hne
 
 /-- if the call succeeds for every fuel `≥ F`, then for every fuel it either succeeds with the same result or
     runs out of fuel; in particular it never reports an out-of-bounds access. -/
 theorem run_ok_or_fuel (fn : Fn) (args : List Int) (Γ : List Ptr) (m m' : Mem) (F : Nat)
     (h : ∀ fuel, F ≤ fuel → run fuel fn args Γ m = .ok m') :
-    ∀ fuel, run fuel fn args Γ m = .ok m' ∨ run fuel fn args Γ m = .err .fuel := by
-  intro fuel
-  by_cases hf : run fuel fn args Γ m = .err .fuel
-  · exact Or.inr hf
-  · left
-    have := run_mono fn args Γ m fuel (max fuel F) (Nat.le_max_left _ _) hf
-    rw [← this]
-    exact h _ (Nat.le_max_right _ _)
+    ∀ fuel, run fuel fn args Γ m = .ok m' ∨ run fuel fn args Γ m = .err .fuel :=
+  runK_ok_or_fuel ExtSem.none fn args Γ m m' F h
 
 theorem run_no_other_error (fn : Fn) (args : List Int) (Γ : List Ptr) (m m' : Mem) (F : Nat)
     (h : ∀ fuel, F ≤ fuel → run fuel fn args Γ m = .ok m') :
-    ∀ fuel e, e ≠ .fuel → run fuel fn args Γ m ≠ .err e := by
-  intro fuel e he
-  rcases run_ok_or_fuel fn args Γ m m' F h fuel with h1 | h1 <;> rw [h1] <;> intro h2 <;> cases h2
-  exact he rfl
+    ∀ fuel e, e ≠ .fuel → run fuel fn args Γ m ≠ .err e :=
+  runK_no_other_error ExtSem.none fn args Γ m m' F h
 
 end Spq.CIR
